@@ -1,6 +1,7 @@
 """C14 - shared contexts fan events out to all holders; exclusive ones stay isolated."""
 import itertools
 from scen import *
+from fractions import Fraction as F
 from opsprof import *
 
 def join_leave_plans(menu, ents, n, frames):
@@ -42,6 +43,24 @@ def cases(tier, rng):
         for plan in plans:
             init = {0: menu, 1: [c for c in menu if ctx_shared(c)]}
             yield (build_scenario(rng, menu, ents, plan, L, init, cfg=per_entity_cfg(rng, menu, ents, L)), 'join-leave-%d' % n)
+    # per-entity gamepads: exclusive instances tied to different gamepads next to an unrestricted shared context
+    from scen import bind, pbutton, paxis, pad, PROBE, frame, raw, sop, spawn, scenario, Ids, action, spec, rand_dt
+    for _ in range(300 if tier == 'thorough' else 40):
+        ids = Ids()
+        ex, sh = rng.choice([0, 2, 4, 6]), rng.choice([1, 3, 5, 7])
+        ents3 = [0, 1, 2]
+        cfg = {}
+        for e in ents3:
+            cfg[(ex, e)] = spec([action(ids, aid(0, 0, False, False), [bind(ids, pbutton(0), [PROBE], [])]),
+                                 action(ids, aid(1, 0, False, False), [bind(ids, paxis(0), [PROBE], [])])], pad=rng.choice([e, e, None]))
+        shs = spec([action(ids, aid(0, 1, False, False), [bind(ids, pbutton(1), [PROBE], [])])], pad=rng.choice([None, 1]))
+        for e in ents3: cfg[(sh, e)] = shs
+        steps = [sop(spawn(e, [c for c in (ex, sh) if rng.random() < .85] or [ex])) for e in ents3]
+        steps.append(frame(raw(pads=[pad(p) for p in range(3)])))
+        for _ in range(rng.randint(5, 10)):
+            hot = rng.randrange(3)
+            steps.append(frame(raw(pads=[pad(p, [bt for bt in range(2) if rng.random() < .4], [(0, rng.choice([F(1, 2), F(-1)]) if p == hot else F(0))]) for p in range(3)]), rand_dt(rng)))
+        yield (scenario(sorted([ex, sh]), ents3, cfg, steps), 'per-entity-gamepads')
     for _ in range(1500 if tier == 'thorough' else 200):
         menu = pick_menu(rng, rng.randint(2, 3))
         ents = [0, 1, 2]
@@ -56,10 +75,10 @@ def nontrivial(case, out):
 STAGES = [dict(name='fanout', mode='app', coq='Check.C14c', cases=cases, nontrivial=nontrivial, shard=25,
                exhaustive={'thorough': False, 'quick': True},
                rule='an exclusive and a shared context type side by side, three entities; exclusive instances are driven by entity-specific scripted states, the shared one by one script; '
-                    'every single join/leave (insert/remove x entity x type) after frames 1, 2, 4 (quick; ordered pairs, sampled to 1500, in thorough) and random histories of 0-6 ops over 6-16 frames; '
+                    'every single join/leave (insert/remove x entity x type) after frames 1, 2, 4 (quick; ordered pairs, sampled to 1500, in thorough) and random histories of 0-6 ops over 6-16 frames; exclusive instances tied to different gamepads (or unrestricted) next to a shared context, three gamepads with independent button/axis activity; '
                     'non-trivial = some event is delivered to the second or third entity; distinct = distinct scenario text')]
 CLAUSES = {1: 'an entity that did not hold the context at evaluation time received one of its events', 2: 'holders of a shared context did not receive identical event lists',
-           3: 'the events an exclusive owner received are not those of its own instance', 8: 'panic', 9: 'malformed trace', 10: 'panic'}
+           3: 'the events an exclusive owner received are not those of its own instance', 4: 'a binding of a per-entity instance did not read its own device (instances with different gamepads are not independent)', 8: 'panic', 9: 'malformed trace', 10: 'panic'}
 def describe(stage, clause): return CLAUSES.get(clause, 'clause %d' % clause)
 def matches_known(k, case, verdict): return False
 TRUSTED = TRUSTED_BASE + ['Bevy 0.15 observer dispatch (trigger_targets to global observers) modelled operationally']
